@@ -1699,7 +1699,7 @@ func (t *tScreen) parseRune(buf *bytes.Buffer, evs *[]Event) (bool, bool) {
 	utf := make([]byte, 12)
 	for l := 1; l <= len(b); l++ {
 		t.decoder.Reset()
-		nOut, nIn, e := t.decoder.Transform(utf, b[:l], true)
+		nOut, nIn, e := t.decoder.Transform(utf, b[:l], false)
 		if e == transform.ErrShortSrc {
 			continue
 		}
